@@ -220,5 +220,15 @@ int main(int argc, char** argv) {
     printf("takeoff time = %g (the altitude is reached at 3.48 s)\n", tt);
     return (t && isfinite(tt)) ? 0 : 1;
   }
+  if (which == 25) { /* D24: (x - 0.44)(x - 0.5)(x - 0.56) = x^3 - 1.5 x^2 + 0.7464 x - 0.1232: the closed form's double-root test
+                        |q^2/4 + p^3/27| < 1e-8 is absolute and that quantity is -s^6/27 for roots s apart (here -1.7e-9): three distinct
+                        roots are answered as a double root, and sb_poly_touches misses the first solution by 0.058 */
+    float cs[4] = {-0.1232f, 0.7464f, -1.5f, 1.0f};
+    sb_poly_t p; sb_poly_make(&p, cs, 4);
+    float roots[8] = {0}; uint8_t n = 0; sb_poly_solve(&p, 0, roots, &n);
+    float r = -1; sb_bool_t t = sb_poly_touches(&p, 0, &r);
+    printf("sb_poly_solve: %d root(s): %g %g %g (expected 3: 0.44 0.5 0.56); touches(0) = %d at u = %g (first solution 0.44)\n", n, roots[0], roots[1], roots[2], t, r);
+    return (n == 3 && t && fabsf(r - 0.44f) < 0.01f) ? 0 : 1;
+  }
   return 0;
 }
